@@ -459,7 +459,10 @@ def _check_vacuum(ctx, case):
             except Exception as e:
                 if not _refusal(e):
                     raise
-                ctx.expect(False, "batch-equals-one-by-one", member=case["members"][j], alone=type(e).__name__)
+                # the series' convergence test is relative to the whole batch, so an extreme member (amplitude 1e-6) can
+                # be refused on its own (DivergedError / NotConvergedError) while the batch converges: a refusal is not
+                # a wrong result, and batch-independence of *refusals* is not part of the statement -> noted, not judged
+                ctx.note("one-by-one-run-refused-" + type(e).__name__)
                 continue
             ctx.close(of[j] / mscale[j], single / mscale[j], "batch-equals-one-by-one", rtol=2e-5, scale=1.0,
                       member=case["members"][j], members=case["members"])
@@ -519,7 +522,10 @@ def _check_potential(ctx, case):
 
     def detector():
         if case["detector"] == "annular":
-            return abtem.AnnularDetector(inner=10.0, outer=40.0)
+            # limits inside the simulated range of this grid/energy (a fixed 40 mrad can exceed it on coarse grids)
+            probe = abtem.PlaneWave(energy=case["energy"], gpts=gpts, extent=ext)
+            amax = 0.95 * min(probe.cutoff_angles)
+            return abtem.AnnularDetector(inner=0.25 * amax, outer=amax)
         if case["detector"] == "pixelated":
             return abtem.PixelatedDetector(max_angle="valid")
         return None
